@@ -469,7 +469,11 @@ def check(ctx):
             ctx.check(wit is None, "returned-deferred/always-examined", q + " | <user callback call-out>",
                       "after a callback returned normally the next callback can run without checking whether the result is a Deferred",
                       witness=g.describe(wit))
-        dT = [d for t in is_def_test for d, l in g.succ[t] if l in ("T", "F") and deferred_fact(g.node(t).ast, l == "T", cur_res) is True]
+        # the test that actually routes the new result (a later test of the same fact supersedes an earlier one, e.g. one inside a diagnostic)
+        stopset = set(S.pops) | set(S.binds) | {g.exit}
+        routing = [t for t in is_def_test if not any(o != t and g.path([d for d, l in g.succ[t] if l in ("T", "F")], [o], avoid=stopset, edge_ok=no_exc, strict=False)
+                                                     for o in is_def_test)]
+        dT = [d for t in routing for d, l in g.succ[t] if l in ("T", "F") and deferred_fact(g.node(t).ast, l == "T", cur_res) is True]
         wit = avoiding_path(g, dT, set(S.pops) | {g.exit} | set(S.callouts), set(S.regs) | set(S.steals), strict=False)
         ctx.check(wit is None, "returned-deferred/chain-or-steal", q + " | <result is a Deferred>",
                   "a Deferred returned by a callback can be passed on as a plain value (neither its result taken nor waited for)",
@@ -574,8 +578,11 @@ def _check_steal_decision(ctx, S, cur_res):
         if v is not None:
             return ("paused", not v)
         return None
-    starts = [d for t in g.nodes if t.kind == "test" and g.reachable(t.id) for d, l in g.succ[t.id]
-              if l in ("T", "F") and deferred_fact(t.ast, l == "T", cur_res) is True]
+    tests_ = [t.id for t in g.nodes if t.kind == "test" and g.reachable(t.id) and deferred_fact(t.ast, True, cur_res) is not None]
+    stopset_ = set(S.pops) | set(S.binds) | {g.exit}
+    tests_ = [t for t in tests_ if not any(o != t and g.path([d for d, l in g.succ[t] if l in ("T", "F")], [o], avoid=stopset_, edge_ok=no_exc, strict=False)
+                                           for o in tests_)]
+    starts = [d for t in tests_ for d, l in g.succ[t] if l in ("T", "F") and deferred_fact(g.node(t).ast, l == "T", cur_res) is True]
     steals, regs = set(S.steals), set(S.regs)
     if not starts or not steals or not regs:
         return      # reported by steal/recognised, chain/registration, returned-deferred/recognised
@@ -762,6 +769,11 @@ MUTANTS = [
            more=[(D, "                        current.result = callback(  # type: ignore[misc]\n                            current.result, *args, **kwargs\n                        )\n\n                        if current.result is current:", "                        got = current.result = callback(given, *args, **kwargs)\n\n                        if got is current:"),
                  (D, "                    if type(current.result) in _DEFERRED_SUBCLASSES:", "                    if type(got) in _DEFERRED_SUBCLASSES:"),
                  (D, "                        currentResult: Deferred[_SelfResultT] = current.result  # type: ignore[assignment]\n", "                        currentResult = got\n")], expect_rule="callout/slot-selection"),
+    Mutant("cursor-re-pointed-parent-forgotten", D, "        chain: List[Deferred[Any]] = [self]\n\n        while chain:\n            current = chain[-1]\n", "        current = self\n        parents: List[Deferred[Any]] = []\n\n        while True:\n",
+           more=[(D, "            finished = True\n            current._chainedTo = None\n", "            current._chainedTo = None\n"),
+                 (D, "                    chain.append(chainee)\n                    # Delay cleaning this Deferred and popping it from the chain\n                    # until after we've dealt with chainee.\n                    finished = False\n                    break\n", "                    current = chainee\n                    if current.paused:\n                        return\n                    current._chainedTo = None\n                    continue\n"),
+                 (D, "            if finished:\n                # As much of the callback chain", "            if True:\n                # As much of the callback chain"),
+                 (D, "                chain.pop()\n", "                if not parents:\n                    return\n                current = parents.pop()\n")], expect_rule="continue/stack-not-popped-early"),
 ]
 SILENT = [
     Silent("rename-locals", D, "item = current.callbacks.pop(0)\n                if not isinstance(current.result, Failure):\n                    callback, args, kwargs = item[0]",
@@ -841,4 +853,9 @@ SILENT = [
            more=[(D, "                        current.result = callback(  # type: ignore[misc]\n                            current.result, *args, **kwargs\n                        )\n\n                        if current.result is current:", "                        got = current.result = callback(given, *args, **kwargs)\n\n                        if got is current:"),
                  (D, "                    if type(current.result) in _DEFERRED_SUBCLASSES:", "                    if type(got) in _DEFERRED_SUBCLASSES:"),
                  (D, "                        currentResult: Deferred[_SelfResultT] = current.result  # type: ignore[assignment]\n", "                        currentResult = got\n")]),
+    Silent("cursor-re-pointed-inside-the-inner-loop", D, "        chain: List[Deferred[Any]] = [self]\n\n        while chain:\n            current = chain[-1]\n", "        current = self\n        parents: List[Deferred[Any]] = []\n\n        while True:\n",
+           more=[(D, "            finished = True\n            current._chainedTo = None\n", "            current._chainedTo = None\n"),
+                 (D, "                    chain.append(chainee)\n                    # Delay cleaning this Deferred and popping it from the chain\n                    # until after we've dealt with chainee.\n                    finished = False\n                    break\n", "                    parents.append(current)\n                    current = chainee\n                    if current.paused:\n                        return\n                    current._chainedTo = None\n                    continue\n"),
+                 (D, "            if finished:\n                # As much of the callback chain", "            if True:\n                # As much of the callback chain"),
+                 (D, "                chain.pop()\n", "                if not parents:\n                    return\n                current = parents.pop()\n")]),
 ]
